@@ -563,10 +563,71 @@ def copy_derivations(ctx, chk, rule="R10.1"):
         chk.hold(rule, "copy-derivations", "no object is derived by a shallow copy that replaces its data", nontrivial=False)
 
 
+_MUTATORS = {"setdefault", "update", "append", "extend", "insert", "add", "pop", "popitem", "clear", "remove", "discard", "sort", "reverse", "appendleft"}
+
+
+def class_level_state(ctx, chk, rule="R10.1"):
+    """A mutable container bound at CLASS level is one object shared by every instance (and every subclass): a method that writes into it
+    through `self.<name>` / `cls.<name>` (item store, setdefault / update / append ...) makes the behaviour of one object depend on which
+    objects were built or queried before it.  Containers that are only read (lookup tables) are fine; so is a name re-bound per instance in
+    __init__ (the instance attribute shadows the class attribute)."""
+    if getattr(chk, "_class_level_state_done", False):
+        return
+    chk._class_level_state_done = True
+    n = 0
+    for mi in ctx.db.modules.values():
+        for c in mi.classes.values():
+            shared = {}
+            for name, v, _a in getattr(c, "assigns", []):
+                mutable = isinstance(v, (ast.Dict, ast.List, ast.Set, ast.DictComp, ast.ListComp, ast.SetComp)) or (
+                    isinstance(v, ast.Call) and ast.unparse(v.func).split(".")[-1] in ("dict", "list", "set", "defaultdict", "OrderedDict", "deque", "Counter"))
+                if mutable:
+                    shared[name] = v
+            if not shared:
+                continue
+            init = c.methods.get("__init__")
+            rebound = set()
+            if init is not None:
+                for x in ast.walk(init.node):
+                    if isinstance(x, ast.Attribute) and isinstance(x.value, ast.Name) and x.value.id == "self" and isinstance(x.ctx, ast.Store):
+                        rebound.add(x.attr)
+            for name in sorted(set(shared) - rebound):
+                n += 1
+                writes = []
+                for mname, m in c.methods.items():
+                    aliases = set()
+                    for x in ast.walk(m.node):
+                        if isinstance(x, ast.Assign) and len(x.targets) == 1 and isinstance(x.targets[0], ast.Name) and isinstance(x.value, ast.Attribute) \
+                                and isinstance(x.value.value, ast.Name) and x.value.value.id in ("self", "cls") and x.value.attr == name:
+                            aliases.add(x.targets[0].id)
+
+                    def is_ref(e, aliases=aliases):
+                        return (isinstance(e, ast.Attribute) and isinstance(e.value, ast.Name) and e.value.id in ("self", "cls", c.name) and e.attr == name) or \
+                            (isinstance(e, ast.Name) and e.id in aliases)
+                    for x in ast.walk(m.node):
+                        if isinstance(x, ast.Call) and isinstance(x.func, ast.Attribute) and x.func.attr in _MUTATORS and is_ref(x.func.value):
+                            writes.append((mname, x.lineno, ".%s()" % x.func.attr))
+                        if isinstance(x, ast.Subscript) and isinstance(x.ctx, (ast.Store, ast.Del)) and is_ref(x.value):
+                            writes.append((mname, x.lineno, "item store"))
+                        if isinstance(x, ast.AugAssign) and is_ref(x.target):
+                            writes.append((mname, x.lineno, "augmented assignment"))
+                if writes:
+                    mname, line, how = writes[0]
+                    chk.violation(rule, c.qualname + "." + mname, "class-level-state:%s.%s" % (c.name, name),
+                                  "%s.%s is a mutable container bound at class level; %s writes into it (%s)" % (c.name, name, mname, how),
+                                  "per-object state (bound in __init__) or a read-only table: a shared container carries one object's settings into the next",
+                                  "%s:%d" % (mi.relpath, line))
+                else:
+                    chk.hold(rule, "class-level:%s.%s" % (c.name, name), "class-level container is only read", nontrivial=False)
+    if n == 0:
+        chk.hold(rule, "class-level-state", "no mutable container is bound at class level", nontrivial=False)
+
+
 def global_state_rule(ctx, chk, rule="R10.1", modules=None, strict=True):
     """No state outlives a call: module-level containers written by functions (and functools caches) make results depend on the call history.
     strict: any such state is a violation; otherwise identity-keyed memos (id()/hash()/repr of an argument in the key) are violations and the rest is INCONCLUSIVE."""
     copy_derivations(ctx, chk, rule)
+    class_level_state(ctx, chk, rule)
     finds = global_state(ctx.db, modules)
     for mq, name, writer, line, how, ksrc in finds:
         if ksrc == "value-keyed cache of a module-level function":
